@@ -98,8 +98,14 @@ def run(rep, progs, tier):
                  ("C17.mime", "MIME derives from the first embedded reply")):
         rep.rule(r, t)
     rep.trusted = ["rustc MIR construction", "mpdfacts exporter", "ACK_ERROR_UNKNOWN = 5 (MPD protocol reference)", "BytesMut semantics"]
+    rep.rule("C17.offset.setter", "the offset setter of the chunk commands stores its parameter (C15's rule on by-value setters, decided here for C17's clause: the loop passes the absolute position)")
     for cfg, prog in progs.items():
         one(rep, prog, cfg)
+        # "offset = bytes received so far" holds on the wire only if `offset(n)` *sets* the offset: an accumulating setter adds the
+        # absolute position to what a reused request already holds
+        from .C15 import setter_rule
+        with rep.importing("C15.shape", "C17.offset.setter"):
+            setter_rule(rep, prog, cfg)
 
 
 def one(rep, prog, cfg):
